@@ -1459,12 +1459,57 @@ class Normaliser:
                 i += 1
         process(node.body)
 
+    # ---- setdefault with a default that belongs to one item ------------------------------------------------------------------
+    def setdefault_defaults(self, node):
+        """inside a loop, `D.setdefault(K, V)` stores V only the first time K is seen: a V that depends on loop variables K does not name
+        (the first item's noise level, say) is silently shared by every later item with the same key"""
+        def names(e):
+            return {x.id for x in ast.walk(e) if isinstance(x, ast.Name)}
+
+        def walk(stmts, loop_vars, assigns):
+            for st in stmts:
+                if isinstance(st, ast.For):
+                    lv = loop_vars | set(target_names(st.target))
+                    local = dict(assigns)
+                    for n in ast.walk(st):
+                        if isinstance(n, ast.Assign):
+                            for t in n.targets:
+                                for nm in target_names(t):
+                                    local.setdefault(nm, set()).update(names(n.value))
+                    walk(st.body, lv, local)
+                    continue
+                if loop_vars:
+                    for c in ast.walk(st):
+                        if isinstance(c, ast.Call) and isinstance(c.func, ast.Attribute) and c.func.attr == 'setdefault' and len(c.args) == 2:
+                            def closure(start):
+                                seen, todo = set(), list(start)
+                                while todo:
+                                    x = todo.pop()
+                                    if x in seen:
+                                        continue
+                                    seen.add(x)
+                                    todo.extend(assigns.get(x, ()))
+                                return seen
+                            kdeps = closure(names(c.args[0])) & loop_vars
+                            vdeps = closure(names(c.args[1])) & loop_vars
+                            if not vdeps <= kdeps:
+                                self.memo_issues.append((st, U(c.func.value), U(c.args[0]),
+                                                         ['<`%s` keeps the default built for the FIRST item seen under a key; that default contains %s, which the '
+                                                          'key `%s` does not name, so later items with the same key inherit the first one\'s value>'
+                                                          % (U(c)[:70], sorted(vdeps - kdeps), U(c.args[0]))]))
+                for f in ('body', 'orelse', 'finalbody'):
+                    sub = getattr(st, f, None)
+                    if isinstance(sub, list) and sub and isinstance(sub[0], ast.stmt) and not isinstance(st, ast.For):
+                        walk(sub, loop_vars, assigns)
+        walk(node.body, set(), {})
+
     def run(self):
         node = clone(self.fi.node)
         self.memo_issues = []
         self.dememoise(node)
         node.body = self.block(node.body, {}, (self.fi.qualname,))
         self.dememoise(node)          # memo tables that came in with inlined helpers
+        self.setdefault_defaults(node)
         self.fuse_item_tables(node)
         self.simplify_options(node)
         self.unroll_table_dispatch(node)
